@@ -341,6 +341,7 @@ WORKLOADS = [
     Workload("str2array", w_str2array, 1200, 120000),
     Workload("si", w_si, 3000, 300000),
     Workload("chain", w_chain, 10, 200),
+    Workload("repo_tests", lambda ctx, rng, i: core.run_repo_tests(ctx), 1, 1, budget=1800, tiers=("thorough",)),
 ]
 
 
